@@ -157,6 +157,41 @@ def acc_frac(t):
     return str(fr.numerator) if fr.denominator == 1 else '%d/%d' % (fr.numerator, fr.denominator)
 
 
+def long_stream(ctx, lines, posts):
+    """one long stream: ranks must stay exact integers far beyond the sizes of the other cases (2^15, 2^16, 2^17 …)"""
+    rng = ctx.rng
+    n = ctx.scale(40000, 140000)
+    spec = rng.choice([['median'], ['quantile', 0.9], ['cdf', 5]])
+    est = p2lib.make(spec)
+    q = [float(t) for t in est.q_desired]
+    m = len(q)
+    case = dict(spec=spec, family='long', n=n, shape=[], cols=[['uniform(0,1) stream of %d observations from the run\'s seed' % n]])
+    lo, hi = float('inf'), float('-inf')
+    watch = {2 ** k + d for k in (15, 16, 17) for d in (-2, -1, 0, 1, 2)}
+    for i in range(n):
+        x = rng.random()
+        lo, hi = min(lo, x), max(hi, x)
+        lock = (i + 1) in watch or i % 997 == 0
+        pre = p2lib.state(est) if lock else None
+        est.accumulate(x)
+        if i + 1 < m:
+            continue
+        _, pos, h = est._debug_info
+        P = [float(t) for t in pos]
+        H = [float(t) for t in h]
+        if P[0] != 0 or P[-1] != i or any(a >= b for a, b in zip(P, P[1:])) or any(t != int(t) for t in P):
+            ctx.fail('p2-ranks-invalid', 'after %d observations the ranks are %s (must be integers strictly increasing from 0 to %d)' % (i + 1, P, i), case)
+            return
+        if H[0] != lo or H[-1] != hi or any(a > b for a, b in zip(H, H[1:])):
+            ctx.fail('p2-markers-not-sorted', 'after %d observations: markers %s, observed range [%r, %r]' % (i + 1, H, lo, hi), case)
+            return
+        if lock:
+            lines.append(p2lib.step_line(q, pre, x))
+            posts.append((case, i, 0, pre, x, p2lib.state(est), q))
+    ctx.case(('long', spec, n), True, sample=dict(spec=spec, n=n))
+    ctx.count('long_stream_observations', n)
+
+
 def check(ctx):
     from harness import formulas
     formulas.check_formulas(ctx, ['CDFEstimator._linear', 'CDFEstimator._parabolic'])
@@ -174,6 +209,7 @@ def check(ctx):
         if len(lines) > 60000:
             compare_lockstep(ctx, lines, posts)
             lines, posts = [], []
+    long_stream(ctx, lines, posts)
     compare_lockstep(ctx, lines, posts)
 
 
